@@ -191,6 +191,9 @@ Definition obj_delete (o v : obj) : option obj :=
   end.
 
 (* evalAction: the new environment, or None for the error object *)
+Definition is_empty_set (o : obj) : bool :=
+  match o with VSS [] | VNS [] | VBS [] => true | _ => false end.
+
 Definition eval_action (e : env) (a : expr) : option env :=
   match a with
   | EAction t l r =>
@@ -237,7 +240,8 @@ Definition eval_action (e : env) (a : expr) : option env :=
                   match eval_ident e id true with
                   | EErr => None
                   | EVal o => if is_undefined o then Some e
-                              else option_map (env_set e (lit id)) (obj_delete o v)
+                              else option_map (fun o' => if is_empty_set o' then env_remove e (lit id)   (* no empty sets (fix 4a6c359) *)
+                                                         else env_set e (lit id) o') (obj_delete o v)
                   end
               | _ => Some e
               end
